@@ -16,6 +16,8 @@ import OFV.Proofs.C05Car
 import OFV.Proofs.C05SrlAll
 import OFV.Proofs.C05Iop8
 import OFV.Proofs.C05Bksf
+import OFV.Proofs.C05BksfNum
+import OFV.Proofs.C05BksfTwo
 
 namespace OFV.C05
 open OFV OFV.Spec OFV.Model OFV.Model.C05 OFV.Sem OFV.BK OFV.BKT
@@ -575,6 +577,87 @@ theorem bksf_a_a_relation (tol : Rat) (htol : tol * tol ≤ 1 / 4) (E : Model.Bk
         * GV.coeff (applyOp .qubit (mulOp .qubit A2 A) [m]) [x] :=
   bksf_AA tol htol E hE i j k l A A2 hA hA2 h1 h2 m x
 
+/-! ### Bravyi-Kitaev superfast: pieces of the assembled transform
+
+`Model.Bksf.edgeIndices N T1 T2` is the Model of `edge_matrix_indices` computed by `bravyi_kitaev_fast_edge_matrix`
++ `numpy.nonzero(numpy.triu(..))` from the tensors `T1 p q = one_body[p, q]`, `T2 p q r s = two_body[p, q, r, s]`;
+`Model.Bksf.oneBody`, `Model.Bksf.numberOp` are the Models of `_one_body` and `number_operator`. -/
+
+/-- the edge list the library derives from ANY pair of tensors is a simple graph on `0..N-1`: every column is
+`(a, b)` with `a < b < N` — so the hypothesis `NoLoops` of the edge-algebra theorems holds for it -/
+theorem bksf_edge_list_simple_graph (N : Nat) (T1 : Nat → Nat → GQ) (T2 : Nat → Nat → Nat → Nat → GQ) :
+    (∀ ab ∈ Model.Bksf.edgeIndices N T1 T2, ab.1 < ab.2 ∧ ab.2 < N) ∧ NoLoops (Model.Bksf.edgeIndices N T1 T2) :=
+  ⟨fun ab h => ⟨(edgeIndices_mem N T1 T2 ab h).1, (edgeIndices_mem N T1 T2 ab h).2.1⟩, edgeIndices_noLoops N T1 T2⟩
+
+/-- **`number_operator(iop, mode)`** is diagonal in the computational basis of the edge qubits; mode `i` is occupied
+in the basis state `m` exactly when an odd number of the qubits sitting on the edges incident to vertex `i` is set,
+and `number_operator(iop)` counts the occupied vertices — every InteractionOperator, every basis state (exact run) -/
+theorem bksf_number_operator_sound (tol : Rat) (htol : tol * tol ≤ 1 / 4) (N : Nat) (T1 : Nat → Nat → GQ)
+    (T2 : Nat → Nat → Nat → Nat → GQ) (mode : Option Nat)
+    (hok : Model.Bksf.numberOk tol N T1 T2 mode = true) (m x : Nat) :
+    GV.coeff (applyOp .qubit (Model.Bksf.numberOp tol N T1 T2 mode) [m]) [x]
+      = if m = x then
+          (match mode with
+            | some i => if incidentSet (Model.Bksf.edgeIndices N T1 T2) i m % 2 = 1 then 1 else 0
+            | none => (((List.range N).filter fun i =>
+                decide (incidentSet (Model.Bksf.edgeIndices N T1 T2) i m % 2 = 1)).length : Nat))
+        else 0 :=
+  bksf_number_den tol htol N T1 T2 mode hok m x
+
+/-- `_one_body(edge_matrix_indices, p, q)` fails (the library raises `ValueError: Invalid index in factor (-1, 'X')`)
+exactly when `p ≠ q` and the array has no column with endpoints `{p, q}` -/
+theorem bksf_one_body_fails_iff (tol : Rat) (E : Model.Bksf.Edges) (p q : Nat) :
+    Model.Bksf.oneBody tol E p q = none ↔ p ≠ q ∧ Model.Bksf.positionIJ E (min p q) (max p q) = none :=
+  oneBody_none_iff tol E p q
+
+/-- **`_one_body(.., p, q)`, `p ≠ q`**, is `-i/2 (A_ab B_b + B_a A_ab)`, `a = min(p,q)`, `b = max(p,q)` — the image of
+`a†_p a_q + a†_q a_p` under the edge-operator dictionary; all matrix elements, every array -/
+theorem bksf_one_body_offdiagonal (tol : Rat) (E : Model.Bksf.Edges) (p q : Nat) (hpq : p ≠ q) (A t : Model.Op)
+    (hA : Model.Bksf.edgeA tol E (min p q) (max p q) = some A) (ht : Model.Bksf.oneBody tol E p q = some t)
+    (hok : Model.Bksf.oneBodyOk tol E p q = true) (m x : Nat) :
+    GV.coeff (applyOp .qubit t [m]) [x]
+      = (⟨0, -(mkRat 1 2)⟩ : GQ)
+        * (GV.coeff (applyOp .qubit (mulOp .qubit A (Model.Bksf.edgeB tol E (max p q))) [m]) [x]
+          + GV.coeff (applyOp .qubit (mulOp .qubit (Model.Bksf.edgeB tol E (min p q)) A) [m]) [x]) :=
+  oneBody_offdiag_den tol E p q hpq A t hA ht hok m x
+
+/-- **`_one_body(.., p, p)`** is `(1 - B_p)/2`: the occupation of vertex `p` (parity of its incident edge qubits) -/
+theorem bksf_one_body_diagonal (tol : Rat) (htol : tol * tol ≤ 1 / 4) (E : Model.Bksf.Edges) (hE : NoLoops E) (p : Nat)
+    (t : Model.Op) (ht : Model.Bksf.oneBody tol E p p = some t) (hok : Model.Bksf.oneBodyOk tol E p p = true)
+    (m x : Nat) :
+    GV.coeff (applyOp .qubit t [m]) [x] = if m = x then (if incidentSet E p m % 2 = 1 then 1 else 0) else 0 :=
+  oneBody_diag_den tol htol E hE p t ht hok m x
+
+/-- **`_two_body(.., p, q, r, s)`, four distinct indices**, is the operator
+`(1/8 A_pq) A_rs (-1 - B_pB_q + B_pB_r + B_pB_s + B_qB_r + B_qB_s - B_rB_s - B_pB_qB_rB_s)` — every array, all matrix
+elements (exact run; the last sign is the one repaired in the source) -/
+theorem bksf_two_body_four_index_formula (tol : Rat) (htol : tol * tol ≤ 1 / 4) (E : Model.Bksf.Edges) (p q r s : Nat)
+    (hnd : Model.Bksf.nDistinct4 p q r s = 4) (Apq Ars t : Model.Op)
+    (hA1 : Model.Bksf.edgeA tol E p q = some Apq) (hA2 : Model.Bksf.edgeA tol E r s = some Ars)
+    (ht : Model.Bksf.twoBody tol E p q r s = some t) (hok : Model.Bksf.twoBody4Ok tol E p q r s = true) (m x : Nat) :
+    let P := fun (Y : Model.Op) =>
+      GV.coeff (applyOp .qubit (mulOp .qubit (mulOp .qubit (smul Model.Bksf.eighthQ Apq) Ars) Y) [m]) [x]
+    let B := Model.Bksf.edgeB tol E
+    GV.coeff (applyOp .qubit t [m]) [x]
+      = -P Model.Bksf.one - P (mulOp .qubit (B p) (B q)) + P (mulOp .qubit (B p) (B r)) + P (mulOp .qubit (B p) (B s))
+        + P (mulOp .qubit (B q) (B r)) + P (mulOp .qubit (B q) (B s)) - P (mulOp .qubit (B r) (B s))
+        - P (mulOp .qubit (mulOp .qubit (mulOp .qubit (B p) (B q)) (B r)) (B s)) :=
+  twoBody4_den tol htol E p q r s hnd Apq Ars t hA1 hA2 ht hok m x
+
+/-- **`_two_body` with four distinct indices is the double excitation `a†_p a†_q a_r a_s + h.c.` in edge-operator
+form**: on a basis state `m` of the edge qubits it vanishes unless vertices `p, q` are occupied and `r, s` empty, or
+the other way round (occupation = parity of the incident edge qubits), and there it acts as `-A_pq A_rs` — every graph
+without loops, every basis state.  (With the former `+ B_pB_qB_rB_s` this statement is false.) -/
+theorem bksf_two_body_four_index_sound (tol : Rat) (htol : tol * tol ≤ 1 / 4) (E : Model.Bksf.Edges) (hE : NoLoops E)
+    (p q r s : Nat) (hnd : Model.Bksf.nDistinct4 p q r s = 4) (Apq Ars t : Model.Op)
+    (hA1 : Model.Bksf.edgeA tol E p q = some Apq) (hA2 : Model.Bksf.edgeA tol E r s = some Ars)
+    (ht : Model.Bksf.twoBody tol E p q r s = some t) (hok : Model.Bksf.twoBody4Ok tol E p q r s = true) (m x : Nat) :
+    GV.coeff (applyOp .qubit t [m]) [x]
+      = if (occV E p m && occV E q m && !occV E r m && !occV E s m)
+            || (!occV E p m && !occV E q m && occV E r m && occV E s m)
+        then -GV.coeff (applyOp .qubit (mulOp .qubit Apq Ars) [m]) [x] else 0 :=
+  twoBody4_sound tol htol E hE p q r s hnd Apq Ars t hA1 hA2 ht hok m x
+
 /-! ### non-vacuity -/
 
 example : Generated.eqTolerance * Generated.eqTolerance ≤ 1 / 4 := by
@@ -636,6 +719,55 @@ example :
   have : e = 0 ∨ e = 1 ∨ e = 2 ∨ e = 3 ∨ e = 4 := by simp at he; omega
   rcases this with rfl | rfl | rfl | rfl | rfl <;> decide
 
+/-- hypotheses of the assembled-BKSF theorems on a concrete InteractionOperator (`N = 4`, hopping 0-1, 1-2, 0-2 and
+a number-excitation entry touching vertex 3): the exact-regime flags of `number_operator` (all modes / one mode)
+and `_one_body` hold, the needed edge operator exists, the edge list is the triangle plus the induced edge -/
+example :
+    let T1 : Nat → Nat → GQ := fun p q => if (p, q) ∈ [(0, 1), (1, 0), (1, 2), (2, 1), (0, 2), (2, 0)] then ⟨mkRat 1 2, 0⟩ else 0
+    let T2 : Nat → Nat → Nat → Nat → GQ := fun p q r s =>
+      if (p, q, r, s) ∈ [(0, 1, 1, 3), (3, 1, 1, 0)] then ⟨mkRat 3 4, 0⟩ else 0
+    Model.Bksf.edgeIndices 4 T1 T2 = [(0, 1), (0, 2), (0, 3), (1, 2)]
+    ∧ Model.Bksf.numberOk Generated.eqTolerance 4 T1 T2 none = true
+    ∧ Model.Bksf.numberOk Generated.eqTolerance 4 T1 T2 (some 2) = true
+    ∧ Model.Bksf.oneBodyOk Generated.eqTolerance (Model.Bksf.edgeIndices 4 T1 T2) 2 0 = true
+    ∧ (Model.Bksf.oneBody Generated.eqTolerance (Model.Bksf.edgeIndices 4 T1 T2) 2 0).isSome = true
+    ∧ (Model.Bksf.bksfOp Generated.eqTolerance 4 0 T1 T2).isSome = true := by
+  intro T1 T2
+  refine ⟨by decide +kernel, by decide +kernel, by decide +kernel, by decide +kernel, by decide +kernel,
+    by decide +kernel⟩
+
+/-- **known finding F05-bksf-missing-edge, on the Model**: for the Hermitian InteractionOperator with
+`two_body[0,1,2,3] = two_body[3,2,1,0] = 1` (`N = 4`) the edge list is empty although the main loop transforms the
+entry `(0,1,2,3)`: the Model of `bravyi_kitaev_fast_interaction_op` fails (`none` = the library's `ValueError`),
+because `_two_body` asks for `A_01`; the same happens for the three-index pair `two_body[3,1,1,2] = two_body[2,1,1,3]`
+(the edge loop skips both entries by `p != r and q < p`, the main loop transforms them and asks for `A_32`) -/
+example :
+    let T2 : Nat → Nat → Nat → Nat → GQ := fun p q r s => if (p, q, r, s) ∈ [(0, 1, 2, 3), (3, 2, 1, 0)] then 1 else 0
+    let T3 : Nat → Nat → Nat → Nat → GQ := fun p q r s => if (p, q, r, s) ∈ [(3, 1, 1, 2), (2, 1, 1, 3)] then 1 else 0
+    Model.Bksf.edgeIndices 4 (fun _ _ => 0) T2 = []
+    ∧ Model.Bksf.twoBody Generated.eqTolerance (Model.Bksf.edgeIndices 4 (fun _ _ => 0) T2) 0 1 2 3 = none
+    ∧ Model.Bksf.bksfOp Generated.eqTolerance 4 0 (fun _ _ => 0) T2 = none
+    ∧ Model.Bksf.edgeIndices 4 (fun _ _ => 0) T3 = []
+    ∧ Model.Bksf.bksfOp Generated.eqTolerance 4 0 (fun _ _ => 0) T3 = none := by
+  intro T2 T3
+  refine ⟨by decide +kernel, by decide +kernel, by decide +kernel, by decide +kernel, by decide +kernel⟩
+
+/-- hypotheses of `bksf_two_body_four_index_sound` on a concrete graph (the 4-cycle 0-1-2-3 with a pendant vertex 4),
+indices `(1, 0, 3, 2)`: four distinct, both edge operators exist, the exact-regime flag holds, and both branches of the
+statement occur (`m = 1`, the qubit of edge (0,1) set: vertices 0, 1 occupied, 2, 3 empty; `m = 0`: vacuum) -/
+example :
+    let E : Model.Bksf.Edges := [(0, 1), (0, 3), (1, 2), (2, 3), (3, 4)]
+    Model.Bksf.nDistinct4 1 0 3 2 = 4
+    ∧ (Model.Bksf.edgeA Generated.eqTolerance E 1 0).isSome = true
+    ∧ (Model.Bksf.edgeA Generated.eqTolerance E 3 2).isSome = true
+    ∧ (Model.Bksf.twoBody Generated.eqTolerance E 1 0 3 2).isSome = true
+    ∧ Model.Bksf.twoBody4Ok Generated.eqTolerance E 1 0 3 2 = true
+    ∧ (occV E 1 1 && occV E 0 1 && !occV E 3 1 && !occV E 2 1) = true
+    ∧ (occV E 1 0 || occV E 0 0 || occV E 3 0 || occV E 2 0) = false := by
+  intro E
+  refine ⟨by decide +kernel, by decide +kernel, by decide +kernel, by decide +kernel, by decide +kernel,
+    by decide +kernel, by decide +kernel⟩
+
 example : ∀ m ∈ [11, 0, 3, 11, 4], m / 2 < 6 := by decide
 
 /-- the exact-regime hypothesis of `tree_exact` on a concrete operator, `n = 6` (tree ≠ Fenwick there) -/
@@ -646,9 +778,15 @@ example : bkTreeFermionOk Generated.eqTolerance 6
 /-! ### statements of C05 that are NOT proved here (covered by correspondence + Spec oracle only; see
 `OPEN_STATEMENTS` in harness/c05.py)
 
-* Bravyi-Kitaev superfast: only the edge operators and their algebra are modelled and proved (`bksf_*`); the edge
-  matrix derived from an InteractionOperator, `_one_body`, `_two_body`, `vacuum_operator` and the assembled
-  Hamiltonian have no Model.
+* Bravyi-Kitaev superfast: the edge matrix, `_one_body`, `_two_body`, the assembled `bravyi_kitaev_fast` and
+  `number_operator` are modelled (`Model/C05Bksf.lean`) and compared exactly with the library; proved: the edge
+  algebra (`bksf_*_relation`), the edge list is a simple graph, `number_operator`, `_one_body`, and `_two_body` for
+  four distinct indices (the double excitation).  NOT proved: the image formulas of `_two_body` for 3 / 2 distinct
+  indices, that the selection of tensor entries of the main loop
+  adds up to the edge-algebra image of the whole Hamiltonian (false in general for the pinned source: known findings
+  F05-bksf-complex-coefficients, F05-bksf-missing-edge), the fermionic
+  identities expressing a†a-monomials by Majorana edge operators, `vacuum_operator` (networkx cycle basis; no Model),
+  and the isomorphism of the stabiliser subspace with the even-parity Fock space.
 * isospectrality with Jordan-Wigner / preservation of expectation values as separate statements (they follow from
   `bk_exact` + `bk_enc_injective`: the transformed operator is the Jordan-Wigner one conjugated by the relabelling). -/
 
